@@ -1190,8 +1190,20 @@ class GlobalVariableHashRule(HashRule):
 
     @staticmethod
     def _serialize_value(var: object) -> Optional[bytes]:
+        def by_name(o):
+            # A Memento function inside the value (a registry of handlers) is described by its
+            # name below. Encoding it as an argument would ask for its version, which never
+            # ends when that function is the one that reads the value.
+            if isinstance(o, MementoFunctionType):
+                return o.qualified_name_without_version
+            if isinstance(o, (list, tuple)):
+                return [by_name(x) for x in o]
+            if isinstance(o, dict):
+                return {k: by_name(v) for k, v in o.items()}
+            return o
+
         try:
-            json.dumps(MementoCodec.encode_arg(var), sort_keys=True)
+            json.dumps(MementoCodec.encode_arg(by_name(var)), sort_keys=True)
         except (TypeError, ValueError):
             # not a type that Memento understands or can hash. Do not hash.
             return None
